@@ -1,5 +1,5 @@
 """C19 - all-or-nothing object writes (DESIGN.md section 3, C19)."""
-from .. import flow, guards, paths
+from .. import flow, guards, inline, paths
 from ..facts import callee_def, short
 from ..report import AnchorMissing
 from . import fscore, streamerr
@@ -120,6 +120,7 @@ def rule_r3(chk, db, conf):
     inner = max(db.nested(d), key=lambda x: len(x.blocks)) if d else None
     if inner is None:
         raise AnchorMissing("FileWriter::done not found")
+    inner = inline.inlined(db, inner)       # `done()` may be staged (`ensure_dest_dir().await?; self.commit().await`)
     ren = [(bi, t) for bi, t in inner.calls() if short(callee_def(t)) == "rename"]
     chk.verdict(len(ren) == 1, "R3", "done.rename", inner.loc(ren[0][0]) if ren else inner.loc(), "done() performs %d renames (expected one)" % len(ren))
     for bi, t in ren:
@@ -225,26 +226,57 @@ def cleanup_flag(db):
     return res
 
 
+def _path_producers(db, body, sl, depth=0):
+    """(body, slice of its returned value) for the functions of the backend whose result flows into the slice (two levels)"""
+    out = []
+    for _, t, _ in sl.calls:
+        cb = db.bodies.get(t["callee"].get("resolved") or "") or db.bodies.get(callee_def(t))
+        if cb is None or cb.crate != "s3s_fs" or cb.kind not in ("Fn", "AssocFn"):
+            continue
+        ib = inline.inlined(db, db.innermost_user_body(cb))
+        psl = flow.backward(ib, {"p": {"l": 0, "proj": []}})
+        for w in flow.return_writes(ib):
+            ops = w.get("rv", {}).get("ops") or (w.get("term", {}).get("args") if w.get("term") else None) or []
+            for o in ops:
+                s2 = flow.backward(ib, o, at=w["bi"])
+                psl.calls += s2.calls
+                psl.fields |= s2.fields
+        out.append((ib, psl))
+        if depth < 1:
+            out += _path_producers(db, ib, psl, depth + 1)
+    return out
+
+
 def rule_r4(chk, db, conf):
     prep = [b for b in fscore.fs_bodies(db) if any(st["rv"]["k"] == "agg" and st["rv"].get("adt", "").endswith("::FileWriter") for _, _, st in b.stmts())][0]
     # temp name <- atomic RMW on tmp_file_counter
     rmw = [(bi, t) for bi, t in prep.calls() if "sync::atomic::Atomic" in callee_def(t)]
     names = [short(callee_def(t)) for _, t in rmw]
     ok = False
+    lit_roots = [db.root_of(prep)]
     for bi, si, st in prep.stmts():
         rv = st["rv"]
         if rv["k"] == "agg" and rv.get("adt", "").endswith("::FileWriter"):
             m = dict(zip(rv["fields"], rv["ops"]))
             sl = flow.backward(prep, m["tmp_path"], at=bi)
-            ok = any(short(callee_def(t)).startswith("fetch_") and "sync::atomic::Atomic" in callee_def(t) for _, t, _ in sl.calls) and \
-                ("FileSystem", "tmp_file_counter") in sl.fields
-            conf_ok = any(callee_def(t) in conf for _, t, _ in sl.calls)
+            # the name may be produced by a helper of the backend (`self.next_tmp_path()?`): its return value is part of the derivation
+            producers = _path_producers(db, prep, sl)
+            all_calls = [t for _, t, _ in sl.calls] + [t for pb, psl in producers for _, t, _ in psl.calls]
+            all_fields = set(sl.fields)
+            for pb, psl in producers:
+                all_fields |= set(psl.fields)
+            ok = any(short(callee_def(t)).startswith("fetch_") and "sync::atomic::Atomic" in callee_def(t) for t in all_calls) and \
+                ("FileSystem", "tmp_file_counter") in all_fields
+            rmw += [(0, t) for t in all_calls if "sync::atomic::Atomic" in callee_def(t) and (0, t) not in rmw]
+            names = [short(callee_def(t)) for _, t in rmw]
+            conf_ok = any(callee_def(t) in conf for t in all_calls)
+            lit_roots += [db.root_of(pb) for pb, _ in producers]
             chk.verdict(conf_ok, "R4", "temp-path-confined", prep.loc(bi), "the temp path does not go through the confinement function", nontrivial=False)
     chk.verdict(ok, "R4", "distinct-temp-names", prep.loc(rmw[0][0]) if rmw else prep.loc(),
                 "temp file names are not derived from an atomic read-modify-write of the counter (atomic ops used: %s): concurrent writers can share a temp file" % names)
     # literal agreement between prepare_file_write and clean_old_tmp_files
     fmt_lits = []
-    for x in db.nested(db.root_of(prep)):
+    for x in [y for r in lit_roots for y in db.nested(r)]:
         for bl in x.blocks:
             if bl["cleanup"]:
                 continue
